@@ -30,6 +30,13 @@ VisibleIn2(want, a, b) == \A i \in 1..Len(want) :
 Details(n) == [i \in 1..n |-> "d" \o ToString(i)]
 Bit0(f) == f % 2
 
+\* "peer" scenarios: the other side is the reference codec acting as a conformant foreign implementation that
+\* uses the freedoms the protocols leave (which messages to compress, casing, padding ...): C05's converse
+IsPeer == "peer" \in DOMAIN sc /\ sc.peer = "server"
+\* the converse on the request side: the reference codec acts as a conformant foreign client (which messages to
+\* compress, bare gRPC content types, padded -Bin values, blanks in the accept list); the real handler must see the
+\* program's messages and metadata, and its response is judged like any other
+IsPeerClient == "peer" \in DOMAIN sc /\ sc.peer = "client"
 \* the request as the handler's side of the wire saw it
 TReq ==
   /\ Ev("req") /\ CStart
@@ -39,7 +46,9 @@ TReq ==
   /\ Visible(sc.reqhdr, Cur.hdr)
   \* the body is tapped as far as the handler read it: nothing if negotiation failed
   /\ LET negok == Identity(wreq'.enc) \/ wreq'.enc \in HSet(sc) IN
-     IF negok THEN /\ [i \in 1..Len(Cur.frames) |-> Bit0(Cur.frames[i][1])] = wreq'.flags
+     IF negok THEN /\ IF IsPeerClient
+                      THEN (\E i \in 1..Len(Cur.frames) : Bit0(Cur.frames[i][1]) = 1) => ~Identity(Cur.enc)
+                      ELSE [i \in 1..Len(Cur.frames) |-> Bit0(Cur.frames[i][1])] = wreq'.flags
                    /\ Cur.ids = wreq'.ids
      ELSE TRUE
 
@@ -53,9 +62,6 @@ THneg == /\ Ev("hneg") /\ HNeg /\ Cur.ran = (IF neg'.ok THEN 1 ELSE 0)
 \* what user code was given
 THsaw == /\ Ev("hsaw") /\ HRun /\ Cur.ids = hsaw'.ids /\ Visible(sc.reqhdr, Cur.hdr)
 
-\* "peer" scenarios: the other side is the reference codec acting as a conformant foreign implementation that
-\* uses the freedoms the protocols leave (which messages to compress, casing, padding ...): C05's converse
-IsPeer == "peer" \in DOMAIN sc /\ sc.peer # ""
 \* a broken peer that ends the response without the protocol's terminator (C06 / C13: the failure stays with its call)
 Dropped == IsPeer /\ "DropStatus" \in DOMAIN sc.choices /\ sc.choices.DropStatus /\ ~IsUnaryConnect(sc)
 TRespDropped == Ev("resp") /\ Dropped /\ HResp /\ Cur.status = 200
